@@ -74,6 +74,10 @@ MUTANTS = [
     dict(property="C07", name="armijo-predicate-without-c1", rule="R-C07-4", file="src/solver/state.cpp",
          old="return m_fx <= origin.fx() + step_size * c1 * origin.dg(descent);", new="return m_fx <= origin.fx() + step_size * origin.dg(descent);"),
     # ---- C17
+    dict(property="C07", name="get-initial-step-nan-not-replaced", rule="R-C07-7", file="src/lsearchk.cpp",
+         old='    step_size = std::isfinite(step_size) ? std::clamp(step_size, stpmin(), 1.0) : scalar_t(1);', new="    step_size = std::clamp(step_size, stpmin(), 1.0);"),
+    dict(property="C07", name="get-initial-step-lower-bound-zero", rule="R-C07-7", file="src/lsearchk.cpp",
+         old='    step_size = std::isfinite(step_size) ? std::clamp(step_size, stpmin(), 1.0) : scalar_t(1);', new="    step_size = std::isfinite(step_size) ? std::clamp(step_size, 0.0, 1.0) : scalar_t(1);"),
     dict(property="C17", name="stop-set-outside-lock", rule="R-C17-1", file="src/core/parallel.cpp",
          old="""    {
         const std::scoped_lock lock(m_queue.m_mutex);
@@ -118,6 +122,12 @@ private:"""),
          old="const auto end = std::min(begin + chunksize, elements);", new="const auto end = begin + chunksize;"),
     dict(property="C17", name="task-captures-by-ref", rule="R-C17-6", file="include/nano/core/parallel.h", tu="src/core/parallel.cpp",
          old="m_queue.enqueue_no_lock([op, index](const size_t tnum) { op(index, tnum); })", new="m_queue.enqueue_no_lock([&op, &index](const size_t tnum) { op(index, tnum); })"),
+    dict(property="C17", name="map-grouped-tasks-round-down", rule="R-C17-6", file="include/nano/core/parallel.h", tu="src/core/parallel.cpp",
+         old='            section_t section;\n            section.reserve(static_cast<size_t>((elements + chunksize - 1) / chunksize));\n            {\n                const std::scoped_lock lock(m_queue.m_mutex);\n                for (tsize begin = 0; begin < elements; begin += chunksize)\n                {\n                    const auto end = std::min(begin + chunksize, elements);\n                    section.emplace_back(\n                        m_queue.enqueue_no_lock([op, begin, end](const size_t tnum) { op(begin, end, tnum); }));\n                }\n            }',
+         new='            const auto chunks    = (elements + chunksize - 1) / chunksize;\n            const auto groupsize = std::max(tsize(1), chunks / static_cast<tsize>(4U * size()));\n            const auto tasksize  = groupsize * chunksize;\n            const auto tasks     = chunks / groupsize;\n\n            section_t section;\n            section.reserve(static_cast<size_t>(tasks));\n            {\n                const std::scoped_lock lock(m_queue.m_mutex);\n                for (tsize task = 0; task < tasks; ++task)\n                {\n                    const auto tbegin = task * tasksize;\n                    const auto tend   = std::min(tbegin + tasksize, elements);\n                    section.emplace_back(m_queue.enqueue_no_lock(\n                        [op, tbegin, tend, chunksize](const size_t tnum)\n                        {\n                            for (auto begin = tbegin; begin < tend; begin += chunksize)\n                            {\n                                op(begin, std::min(begin + chunksize, tend), tnum);\n                            }\n                        }));\n                }\n            }'),
+    dict(property="C09", name="map-grouped-tasks-round-down", rule="R-C09-10", file="include/nano/core/parallel.h", tu="src/core/parallel.cpp",
+         old='            section_t section;\n            section.reserve(static_cast<size_t>((elements + chunksize - 1) / chunksize));\n            {\n                const std::scoped_lock lock(m_queue.m_mutex);\n                for (tsize begin = 0; begin < elements; begin += chunksize)\n                {\n                    const auto end = std::min(begin + chunksize, elements);\n                    section.emplace_back(\n                        m_queue.enqueue_no_lock([op, begin, end](const size_t tnum) { op(begin, end, tnum); }));\n                }\n            }',
+         new='            const auto chunks    = (elements + chunksize - 1) / chunksize;\n            const auto groupsize = std::max(tsize(1), chunks / static_cast<tsize>(4U * size()));\n            const auto tasksize  = groupsize * chunksize;\n            const auto tasks     = chunks / groupsize;\n\n            section_t section;\n            section.reserve(static_cast<size_t>(tasks));\n            {\n                const std::scoped_lock lock(m_queue.m_mutex);\n                for (tsize task = 0; task < tasks; ++task)\n                {\n                    const auto tbegin = task * tasksize;\n                    const auto tend   = std::min(tbegin + tasksize, elements);\n                    section.emplace_back(m_queue.enqueue_no_lock(\n                        [op, tbegin, tend, chunksize](const size_t tnum)\n                        {\n                            for (auto begin = tbegin; begin < tend; begin += chunksize)\n                            {\n                                op(begin, std::min(begin + chunksize, tend), tnum);\n                            }\n                        }));\n                }\n            }'),
     dict(property="C17", name="wait-without-predicate", rule="R-C17-3", file="src/core/parallel.cpp",
          old="m_queue.m_condition.wait(lock, [&] { return m_queue.m_stop || !m_queue.m_tasks.empty(); });",
          new="if (!m_queue.m_stop && m_queue.m_tasks.empty()) { m_queue.m_condition.wait(lock); }"),
@@ -1234,6 +1244,13 @@ private:
 ]
 
 BENIGN = [
+    dict(property="C07", name="get-initial-step-if-form", file="src/lsearchk.cpp",
+         old='    step_size = std::isfinite(step_size) ? std::clamp(step_size, stpmin(), 1.0) : scalar_t(1);',
+         new="""    if (!std::isfinite(step_size))
+    {
+        step_size = 1.0;
+    }
+    step_size = std::min(std::max(step_size, stpmin()), 1.0);"""),
     dict(property="C07", name="get-descent-test-inlined", file="src/lsearchk.cpp",
          old="    if (!state.has_descent(descent))", new="    if (const auto dg0 = state.dg(descent); !(dg0 < 0.0))"),
     dict(property="C07", name="lemarechal-swap-operands", file="src/lsearchk/lemarechal.cpp",
@@ -1251,6 +1268,12 @@ BENIGN = [
         }"""),
     dict(property="C07", name="armijo-predicate-reordered", file="src/solver/state.cpp",
          old="return m_fx <= origin.fx() + step_size * c1 * origin.dg(descent);", new="return origin.fx() + c1 * origin.dg(descent) * step_size >= m_fx;"),
+    dict(property="C17", name="map-grouped-tasks-round-up", file="include/nano/core/parallel.h", tu="src/core/parallel.cpp",
+         old='            section_t section;\n            section.reserve(static_cast<size_t>((elements + chunksize - 1) / chunksize));\n            {\n                const std::scoped_lock lock(m_queue.m_mutex);\n                for (tsize begin = 0; begin < elements; begin += chunksize)\n                {\n                    const auto end = std::min(begin + chunksize, elements);\n                    section.emplace_back(\n                        m_queue.enqueue_no_lock([op, begin, end](const size_t tnum) { op(begin, end, tnum); }));\n                }\n            }',
+         new='            const auto chunks    = (elements + chunksize - 1) / chunksize;\n            const auto groupsize = std::max(tsize(1), chunks / static_cast<tsize>(4U * size()));\n            const auto tasksize  = groupsize * chunksize;\n            const auto tasks     = (chunks + groupsize - 1) / groupsize;\n\n            section_t section;\n            section.reserve(static_cast<size_t>(tasks));\n            {\n                const std::scoped_lock lock(m_queue.m_mutex);\n                for (tsize task = 0; task < tasks; ++task)\n                {\n                    const auto tbegin = task * tasksize;\n                    const auto tend   = std::min(tbegin + tasksize, elements);\n                    section.emplace_back(m_queue.enqueue_no_lock(\n                        [op, tbegin, tend, chunksize](const size_t tnum)\n                        {\n                            for (auto begin = tbegin; begin < tend; begin += chunksize)\n                            {\n                                op(begin, std::min(begin + chunksize, tend), tnum);\n                            }\n                        }));\n                }\n            }'),
+    dict(property="C09", name="map-grouped-tasks-round-up", file="include/nano/core/parallel.h", tu="src/core/parallel.cpp",
+         old='            section_t section;\n            section.reserve(static_cast<size_t>((elements + chunksize - 1) / chunksize));\n            {\n                const std::scoped_lock lock(m_queue.m_mutex);\n                for (tsize begin = 0; begin < elements; begin += chunksize)\n                {\n                    const auto end = std::min(begin + chunksize, elements);\n                    section.emplace_back(\n                        m_queue.enqueue_no_lock([op, begin, end](const size_t tnum) { op(begin, end, tnum); }));\n                }\n            }',
+         new='            const auto chunks    = (elements + chunksize - 1) / chunksize;\n            const auto groupsize = std::max(tsize(1), chunks / static_cast<tsize>(4U * size()));\n            const auto tasksize  = groupsize * chunksize;\n            const auto tasks     = (chunks + groupsize - 1) / groupsize;\n\n            section_t section;\n            section.reserve(static_cast<size_t>(tasks));\n            {\n                const std::scoped_lock lock(m_queue.m_mutex);\n                for (tsize task = 0; task < tasks; ++task)\n                {\n                    const auto tbegin = task * tasksize;\n                    const auto tend   = std::min(tbegin + tasksize, elements);\n                    section.emplace_back(m_queue.enqueue_no_lock(\n                        [op, tbegin, tend, chunksize](const size_t tnum)\n                        {\n                            for (auto begin = tbegin; begin < tend; begin += chunksize)\n                            {\n                                op(begin, std::min(begin + chunksize, tend), tnum);\n                            }\n                        }));\n                }\n            }'),
     dict(property="C17", name="notify-one-to-all", file="include/nano/core/parallel.h",
          old="m_condition.notify_one();", new="m_condition.notify_all();"),
     dict(property="C17", name="worker-extra-log-and-scope", file="src/core/parallel.cpp",
